@@ -168,9 +168,21 @@ def bytecode_graphs(tier: str) -> Dict[str, List[Graph]]:
     return out
 
 
+def frontend_corpus_s3() -> List[Graph]:
+    """Stored corpus: CFGs of the source front end for S(3)/CH(3) (see tools/gen_frontend_corpus.py)."""
+    import json
+    path = os.path.join(os.path.dirname(os.path.abspath(__file__)), "data", "frontend_cfgs_s3.json")
+    if not os.path.exists(path):
+        return []
+    return [tuple(tuple(r) for r in g) for g in json.load(open(path))["graphs"]]
+
+
 def graph_spec(tier: str, light: bool = False) -> Dict[str, Any]:
     """Families for the graph-level properties (DESIGN section 3)."""
     lists: Dict[str, List[Graph]] = {}
+    s3 = frontend_corpus_s3()
+    if s3:
+        lists["S3"] = s3 if not light else s3[::4]
     try:
         if tier == "quick":
             s1 = frontend_graphs(1)
